@@ -1,4 +1,7 @@
 ------------------------------------------- MODULE AsciiMap_mc -------------------------------------------
+(* C18 -- bounds and emission for AsciiMap.tla.  Case = one (map class, contents) with both canonical texts and the grid
+   contents every grid design using this map class must read from the padded text.  The emission configurations carry
+   every invariant: in the quick tier they are the exhaustive run (AsciiMap_mc_thorough.cfg is a larger one).        *)
 EXTENDS AsciiMap
 CONSTANT MaxLevel
 Bound == TLCGet("level") <= MaxLevel
